@@ -320,16 +320,18 @@ inductive EntryCase (ipc : Bool) (nonMq : List Val) (self : Val) (st : RS) (src 
   | allocIpc (g : Flt) (hmq : isMq src = false) (hf : findById st.fs (onlyMq src) = some g)
       (hself : self ≠ .str (onlyMq src)) (hnm : nonMq.contains (.str (onlyMq src)) = false)
       (hl : lookupSrc st.srcById (onlyMq src) = none) (hout : truthy (attr g.cfg kOutputs) = false) (hipc : ipc = true)
-      (hst : st' = { st with fs := setOutputs st.fs (onlyMq src) (sIpc ++ onlyMq src),
-                             srcById := st.srcById ++ [(.str (onlyMq src), sIpc ++ onlyMq src)] })
-      (he : e = (sIpc ++ onlyMq src) ++ suffixOf src)
+      (hst : st' = { st with fs := setOutputs st.fs (onlyMq src) (ipcName st.ipcUsed (onlyMq src)),
+                             srcById := st.srcById ++ [(.str (onlyMq src), ipcName st.ipcUsed (onlyMq src))],
+                             ipcUsed := st.ipcUsed.map (ipcName st.ipcUsed (onlyMq src) :: ·),
+                             ipcAllocs := (onlyMq src, ipcName st.ipcUsed (onlyMq src)) :: st.ipcAllocs })
+      (he : e = ipcName st.ipcUsed (onlyMq src) ++ suffixOf src)
   | allocTcp (g : Flt) (hmq : isMq src = false) (hf : findById st.fs (onlyMq src) = some g)
       (hself : self ≠ .str (onlyMq src)) (hnm : nonMq.contains (.str (onlyMq src)) = false)
       (hl : lookupSrc st.srcById (onlyMq src) = none) (hout : truthy (attr g.cfg kOutputs) = false) (hipc : ipc = false)
-      (hst : st' = { fs := setOutputs st.fs (onlyMq src) (tcpOut (st.maxPort + OF.Facts.CLI_PORT_STRIDE)),
-                     maxPort := st.maxPort + OF.Facts.CLI_PORT_STRIDE,
-                     srcById := st.srcById ++ [(.str (onlyMq src), tcpConn (st.maxPort + OF.Facts.CLI_PORT_STRIDE))],
-                     allocs := (onlyMq src, st.maxPort + OF.Facts.CLI_PORT_STRIDE) :: st.allocs })
+      (hst : st' = { st with fs := setOutputs st.fs (onlyMq src) (tcpOut (st.maxPort + OF.Facts.CLI_PORT_STRIDE)),
+                             maxPort := st.maxPort + OF.Facts.CLI_PORT_STRIDE,
+                             srcById := st.srcById ++ [(.str (onlyMq src), tcpConn (st.maxPort + OF.Facts.CLI_PORT_STRIDE))],
+                             allocs := (onlyMq src, st.maxPort + OF.Facts.CLI_PORT_STRIDE) :: st.allocs })
       (he : e = tcpConn (st.maxPort + OF.Facts.CLI_PORT_STRIDE) ++ suffixOf src)
 
 theorem resolveEntry_cases (ipc : Bool) (nonMq : List Val) (self : Val) (st : RS) (src : Str) (st' : RS) (e : Str)
@@ -385,6 +387,109 @@ theorem onlyMq_append_suffix (src : Str) : onlyMq src ++ suffixOf src = src := b
       · simp
   exact this _ src
 
+/-! ## the `--ipc` name search (`pending_fixes/C12-ipc-name-clash.diff`) -/
+
+/-- the candidate names `ipc://id`, `ipc://id-2`, `ipc://id-3`, … are pairwise different -/
+theorem ipcCand_inj (id : Str) (a b : Nat) (h : ipcCand id a = ipcCand id b) : a = b := by
+  have hlen : ∀ k, (ipcCand id (k + 1)).length ≠ (ipcCand id 0).length := by
+    intro k; simp only [ipcCand, List.length_append, List.length_cons]; omega
+  cases a with
+  | zero =>
+    cases b with
+    | zero => rfl
+    | succ b => exact absurd (congrArg List.length h).symm (hlen b)
+  | succ a =>
+    cases b with
+    | zero => exact absurd (congrArg List.length h) (hlen a)
+    | succ b =>
+      simp only [ipcCand] at h
+      have h2 : Nat.toDigits 10 (a + 2) = Nat.toDigits 10 (b + 2) := by
+        have := List.append_cancel_left h
+        simpa using this
+      have := congrArg (fun l => Nat.ofDigitChars 10 l 0) h2
+      simp only [Nat.ofDigitChars_ten_toDigits] at this
+      omega
+
+/-- pigeonhole: among the first `l.length + 1` values of an injective sequence one is not in `l` -/
+theorem exists_not_mem_of_inj (l : List Str) :
+    ∀ (f : Nat → Str), (∀ a b, f a = f b → a = b) → ∃ k, k ≤ l.length ∧ f k ∉ l := by
+  induction l with
+  | nil => intro f _; exact ⟨0, Nat.le_refl _, by simp⟩
+  | cons x r ih =>
+    intro f hf
+    by_cases hx : ∃ j, f j = x
+    · obtain ⟨j, hj⟩ := hx
+      have hg : ∀ a b, (if a < j then f a else f (a + 1)) = (if b < j then f b else f (b + 1)) → a = b := by
+        intro a b hab
+        split at hab <;> split at hab <;> have := hf _ _ hab <;> omega
+      obtain ⟨k, hk, hkr⟩ := ih (fun n => if n < j then f n else f (n + 1)) hg
+      by_cases hkj : k < j
+      · simp only [hkj, ↓reduceIte] at hkr
+        refine ⟨k, by simp only [List.length_cons]; omega, fun hm => ?_⟩
+        rcases List.mem_cons.mp hm with h | h
+        · have := hf _ _ (h.trans hj.symm); omega
+        · exact hkr h
+      · simp only [hkj, ↓reduceIte] at hkr
+        refine ⟨k + 1, by simp only [List.length_cons]; omega, fun hm => ?_⟩
+        rcases List.mem_cons.mp hm with h | h
+        · have := hf _ _ (h.trans hj.symm); omega
+        · exact hkr h
+    · obtain ⟨k, hk, hkr⟩ := ih f hf
+      refine ⟨k, by simp only [List.length_cons]; omega, fun hm => ?_⟩
+      rcases List.mem_cons.mp hm with h | h
+      · exact hx ⟨k, h⟩
+      · exact hkr h
+
+/-- the search started at candidate `k0` with enough fuel to reach a free candidate returns the FIRST free one -/
+theorem pickIpcFrom_spec (used : List Str) (id : Str) :
+    ∀ (fuel k0 : Nat), (∃ k, k0 ≤ k ∧ k < k0 + fuel ∧ ipcCand id k ∉ used) →
+      ∃ k, k0 ≤ k ∧ pickIpcFrom used id fuel k0 = ipcCand id k ∧ ipcCand id k ∉ used ∧
+        ∀ j, k0 ≤ j → j < k → ipcCand id j ∈ used := by
+  intro fuel
+  induction fuel with
+  | zero => intro k0 ⟨k, h1, h2, _⟩; omega
+  | succ n ih =>
+    intro k0 ⟨k, h1, h2, h3⟩
+    unfold pickIpcFrom
+    split
+    · rename_i hc
+      have hm : ipcCand id k0 ∈ used := List.contains_iff_mem.mp hc
+      have hne : k ≠ k0 := by intro e; subst e; exact h3 hm
+      obtain ⟨k', a1, a2, a3, a4⟩ := ih (k0 + 1) ⟨k, by omega, by omega, h3⟩
+      refine ⟨k', by omega, a2, a3, fun j hj1 hj2 => ?_⟩
+      by_cases hj : j = k0
+      · subst hj; exact hm
+      · exact a4 j (by omega) hj2
+    · rename_i hc
+      exact ⟨k0, Nat.le_refl _, rfl, fun hm => hc (List.contains_iff_mem.mpr hm), fun j h1 h2 => by omega⟩
+
+/-- **the `while new_source in ipc_addrs` loop**: the fuel `used.length + 1` of the model is never exhausted; the name
+chosen is the first of `ipc://id`, `ipc://id-2`, `ipc://id-3`, … that is not in `used` -/
+theorem pickIpc_spec (used : List Str) (id : Str) :
+    ∃ k, pickIpc used id = ipcCand id k ∧ ipcCand id k ∉ used ∧ ∀ j, j < k → ipcCand id j ∈ used := by
+  obtain ⟨k, hk, hfree⟩ := exists_not_mem_of_inj used (ipcCand id) (ipcCand_inj id)
+  obtain ⟨k', _, a2, a3, a4⟩ := pickIpcFrom_spec used id (used.length + 1) 0 ⟨k, Nat.zero_le _, by omega, hfree⟩
+  exact ⟨k', a2, a3, fun j hj => a4 j (Nat.zero_le _) hj⟩
+
+theorem pickIpc_not_mem (used : List Str) (id : Str) : pickIpc used id ∉ used := by
+  obtain ⟨k, h1, h2, _⟩ := pickIpc_spec used id
+  rw [h1]; exact h2
+
+/-- no clash, no change: when `ipc://id` is free it is the name chosen -/
+theorem pickIpc_free (used : List Str) (id : Str) (h : sIpc ++ id ∉ used) : pickIpc used id = sIpc ++ id := by
+  obtain ⟨k, h1, _, h3⟩ := pickIpc_spec used id
+  cases k with
+  | zero => exact h1
+  | succ k => exact absurd (h3 0 (Nat.succ_pos _)) h
+
+/-- pinned and repaired allocator alike hand out one of the candidate names of the id -/
+theorem ipcName_cand (u : Option (List Str)) (id : Str) : ∃ k, ipcName u id = ipcCand id k := by
+  cases u with
+  | none => exact ⟨0, rfl⟩
+  | some used =>
+    obtain ⟨k, h1, _⟩ := pickIpc_spec used id
+    exact ⟨k, h1⟩
+
 /-! ## the invariant of the resolution loop -/
 
 local notation "stride" => OF.Facts.CLI_PORT_STRIDE
@@ -393,7 +498,7 @@ local notation "stride" => OF.Facts.CLI_PORT_STRIDE
 def Binds (ipc : Bool) (outs : Val) (id a : Str) : Prop :=
   (∃ s first more, outs = .str s ∧ splitCommas s = first :: more ∧ (first :: more).any (fun o => !isMq o) = false ∧ a = connAddr first)
   ∨ (∃ p, outs = .str (tcpOut p) ∧ a = tcpConn p ∧ ipc = false)
-  ∨ (outs = .str (sIpc ++ id) ∧ a = sIpc ++ id ∧ ipc = true)
+  ∨ (∃ k, outs = .str (ipcCand id k) ∧ a = ipcCand id k ∧ ipc = true)
 
 /-- element-wise relation between two lists of the same length -/
 inductive All₂ {α β : Type} (R : α → β → Prop) : List α → List β → Prop where
@@ -456,7 +561,7 @@ structure Inv (ipc : Bool) (pre : List Flt) (m0 : Int) (done : List Nat) (st : R
     cget f'.cfg kOutputs = cget f.cfg kOutputs ∨
     ∃ id, attr f.cfg kId = .str id ∧
       ((∃ p, (id, p) ∈ st.allocs ∧ ipc = false ∧ cget f'.cfg kOutputs = some (.str (tcpOut p))) ∨
-       (ipc = true ∧ cget f'.cfg kOutputs = some (.str (sIpc ++ id))))
+       (∃ nm, (id, nm) ∈ st.ipcAllocs ∧ ipc = true ∧ cget f'.cfg kOutputs = some (.str nm)))
   keep : ∀ (i : Nat) (f f' : Flt), pre[i]? = some f → st.fs[i]? = some f' → truthy (attr f.cfg kOutputs) = true →
     cget f'.cfg kOutputs = cget f.cfg kOutputs
   bound : ∀ x ∈ st.allocs, m0 + stride ≤ x.2 ∧ x.2 ≤ st.maxPort
@@ -468,6 +573,9 @@ structure Inv (ipc : Bool) (pre : List Flt) (m0 : Int) (done : List Nat) (st : R
     ∃ f' ∈ st.fs, attr f'.cfg kId = .str id ∧ Binds ipc (attr f'.cfg kOutputs) id a
   todo : ∀ (i : Nat) (f f' : Flt), i ∉ done → pre[i]? = some f → st.fs[i]? = some f' → cget f'.cfg kSources = cget f.cfg kSources
   did : ∀ (i : Nat) (f f' : Flt), i ∈ done → pre[i]? = some f → st.fs[i]? = some f' → SrcOK pre st.srcById f f'
+  ipcOwners : st.ipcAllocs.Pairwise (fun a b => a.1 ≠ b.1)
+  ipcOwnersIn : ∀ x ∈ st.ipcAllocs, lookupSrc st.srcById x.1 ≠ none
+  ipcShape : ∀ x ∈ st.ipcAllocs, ∃ k, x.2 = ipcCand x.1 k
 
 theorem findById_none_congr (fs fs' : List Flt) (h : ids fs = ids fs') (id : Str) :
     findById fs id = none ↔ findById fs' id = none := by
@@ -479,13 +587,16 @@ theorem alloc_inv (ipc : Bool) (pre : List Flt) (m0 : Int) (done : List Nat) (st
     (hf : findById st.fs id = some g) (hl : lookupSrc st.srcById id = none) (hout : truthy (attr g.cfg kOutputs) = false)
     (hfs : st'.fs = setOutputs st.fs id o) (hsrc : st'.srcById = st.srcById ++ [(.str id, a)])
     (hb : Binds ipc (.str o) id a)
-    (ho : (∃ p, (id, p) ∈ st'.allocs ∧ ipc = false ∧ o = tcpOut p) ∨ (ipc = true ∧ o = sIpc ++ id))
-    (hsub : ∀ x ∈ st.allocs, x ∈ st'.allocs)
+    (ho : (∃ p, (id, p) ∈ st'.allocs ∧ ipc = false ∧ o = tcpOut p) ∨ ((id, o) ∈ st'.ipcAllocs ∧ ipc = true))
+    (hsub : ∀ x ∈ st.allocs, x ∈ st'.allocs) (hsubI : ∀ x ∈ st.ipcAllocs, x ∈ st'.ipcAllocs)
     (hbound : ∀ x ∈ st'.allocs, m0 + stride ≤ x.2 ∧ x.2 ≤ st'.maxPort)
     (hapart : st'.allocs.Pairwise (fun a b => b.2 + stride ≤ a.2))
     (hfloor : m0 ≤ st'.maxPort)
     (howners : st'.allocs.Pairwise (fun a b => a.1 ≠ b.1))
-    (hnew : ∀ x ∈ st'.allocs, x ∈ st.allocs ∨ x.1 = id) :
+    (hnew : ∀ x ∈ st'.allocs, x ∈ st.allocs ∨ x.1 = id)
+    (hIowners : st'.ipcAllocs.Pairwise (fun a b => a.1 ≠ b.1))
+    (hInew : ∀ x ∈ st'.ipcAllocs, x ∈ st.ipcAllocs ∨ x.1 = id)
+    (hIshape : ∀ x ∈ st'.ipcAllocs, ∃ k, x.2 = ipcCand x.1 k) :
     Inv ipc pre m0 done st' := by
   have hgrow : Grows st.srcById st'.srcById := by
     intro id' a' h; rw [hsrc]; exact lookupSrc_append_of_some _ _ _ _ h
@@ -505,7 +616,14 @@ theorem alloc_inv (ipc : Bool) (pre : List Flt) (m0 : Int) (done : List Nat) (st
     rw [h2]; split
     · exact cget_cset_ne _ _ _ _ kSources_ne_kOutputs
     · rfl
-  refine ⟨?_, ?_, ?_, ?_, hbound, hapart, hfloor, howners, ?_, ?_, ?_, ?_⟩
+  have hlook : ∀ x : Str, lookupSrc st.srcById x ≠ none ∨ x = id → lookupSrc st'.srcById x ≠ none := by
+    intro x hx
+    rcases hx with h | h
+    · cases hh : lookupSrc st.srcById x with
+      | none => exact absurd hh h
+      | some a' => rw [hgrow _ _ hh]; simp
+    · rw [h, hsrc, lookupSrc_append_new _ _ _ hl]; simp
+  refine ⟨?_, ?_, ?_, ?_, hbound, hapart, hfloor, howners, ?_, ?_, ?_, ?_, hIowners, ?_, hIshape⟩
   · rw [hfs, setOutputs_ids]; exact hinv.ids
   · intro i f f' hpre h
     obtain ⟨f'', h1, h2⟩ := hget i f' h
@@ -522,16 +640,16 @@ theorem alloc_inv (ipc : Bool) (pre : List Flt) (m0 : Int) (done : List Nat) (st
         have := (hinv.same i f f'' hpre h1).2.2.2 kId kId_ne_kSources kId_ne_kOutputs
         simp only [attr, ← this]; exact hid
       refine ⟨id, hidf, ?_⟩
-      rcases ho with ⟨p, hp1, hp2, hp3⟩ | ⟨hi, ho'⟩
+      rcases ho with ⟨p, hp1, hp2, hp3⟩ | ⟨ho', hi⟩
       · left; exact ⟨p, hp1, hp2, by rw [cget_cset_self, hp3]⟩
-      · right; exact ⟨hi, by rw [cget_cset_self, ho']⟩
+      · right; exact ⟨o, ho', hi, cget_cset_self _ _ _⟩
     · rcases hinv.outs i f f'' hpre h1 with h3 | ⟨id', hid', h3⟩
       · left; exact h3
       · right
         refine ⟨id', hid', ?_⟩
-        rcases h3 with ⟨p, hp1, hp2⟩ | h3
+        rcases h3 with ⟨p, hp1, hp2⟩ | ⟨nm, hn1, hn2⟩
         · left; exact ⟨p, hsub _ hp1, hp2⟩
-        · right; exact h3
+        · right; exact ⟨nm, hsubI _ hn1, hn2⟩
   · intro i f f' hpre h htr
     obtain ⟨f'', h1, h2⟩ := hget i f' h
     have hk := hinv.keep i f f'' hpre h1 htr
@@ -547,11 +665,8 @@ theorem alloc_inv (ipc : Bool) (pre : List Flt) (m0 : Int) (done : List Nat) (st
     · exact hk
   · intro x hx
     rcases hnew x hx with h | h
-    · have := hinv.ownersIn x h
-      cases hh : lookupSrc st.srcById x.1 with
-      | none => exact absurd hh this
-      | some a' => rw [hgrow _ _ hh]; simp
-    · rw [h, hsrc, lookupSrc_append_new _ _ _ hl]; simp
+    · exact hlook _ (Or.inl (hinv.ownersIn x h))
+    · exact hlook _ (Or.inr h)
   · intro id' a' h
     by_cases hid : id' = id
     · subst hid
@@ -575,6 +690,10 @@ theorem alloc_inv (ipc : Bool) (pre : List Flt) (m0 : Int) (done : List Nat) (st
   · intro i f f' hd hpre h
     obtain ⟨f'', h1, h2⟩ := hsrcs i f' h
     exact SrcOK_mono pre _ _ hgrow f f'' f' h2 (hinv.did i f f'' hd hpre h1)
+  · intro x hx
+    rcases hInew x hx with h | h
+    · exact hlook _ (Or.inl (hinv.ipcOwnersIn x h))
+    · exact hlook _ (Or.inr h)
 
 theorem Grows.refl (s : List (Val × Str)) : Grows s s := fun _ _ h => h
 theorem Grows.trans {a b c : List (Val × Str)} (h1 : Grows a b) (h2 : Grows b c) : Grows a c :=
@@ -598,19 +717,38 @@ theorem resolveEntry_inv (ipc : Bool) (pre : List Flt) (m0 : Int) (done : List N
     rcases hk with hk | hk
     · rw [hk] at hmq; cases hmq
     · rw [hcong.mpr hk] at hf; cases hf
-  · have hinv' : Inv ipc pre m0 done st' := by
-      apply alloc_inv ipc pre m0 done st st' (onlyMq src) (sIpc ++ onlyMq src) (sIpc ++ onlyMq src) g hp hinv hf hl hout
+  · obtain ⟨k, hk⟩ := ipcName_cand st.ipcUsed (onlyMq src)
+    have hinv' : Inv ipc pre m0 done st' := by
+      apply alloc_inv ipc pre m0 done st st' (onlyMq src) (ipcName st.ipcUsed (onlyMq src))
+        (ipcName st.ipcUsed (onlyMq src)) g hp hinv hf hl hout
       · rw [hst]
       · rw [hst]
-      · exact Or.inr (Or.inr ⟨rfl, rfl, hipc⟩)
-      · exact Or.inr ⟨hipc, rfl⟩
+      · exact Or.inr (Or.inr ⟨k, by rw [hk], hk, hipc⟩)
+      · exact Or.inr ⟨by rw [hst]; exact List.mem_cons_self .., hipc⟩
       · intro x hx; rw [hst]; exact hx
+      · intro x hx; rw [hst]; exact List.mem_cons_of_mem _ hx
       · intro x hx; rw [hst] at hx ⊢; exact hinv.bound x hx
       · rw [hst]; exact hinv.apart
       · rw [hst]; exact hinv.floor
       · rw [hst]; exact hinv.owners
       · intro x hx; rw [hst] at hx; exact Or.inl hx
-    refine ⟨hinv', ?_, fun hk => ?_, fun _ _ => ⟨sIpc ++ onlyMq src, ?_, he⟩⟩
+      · rw [hst]
+        simp only [List.pairwise_cons]
+        refine ⟨fun b hb heq => ?_, hinv.ipcOwners⟩
+        have := hinv.ipcOwnersIn b hb
+        rw [← heq] at this
+        exact this hl
+      · intro x hx
+        rw [hst] at hx
+        rcases List.mem_cons.mp hx with rfl | hx
+        · exact Or.inr rfl
+        · exact Or.inl hx
+      · intro x hx
+        rw [hst] at hx
+        rcases List.mem_cons.mp hx with rfl | hx
+        · exact ⟨k, hk⟩
+        · exact hinv.ipcShape x hx
+    refine ⟨hinv', ?_, fun hk => ?_, fun _ _ => ⟨ipcName st.ipcUsed (onlyMq src), ?_, he⟩⟩
     · intro id' a' h'; rw [hst]; exact lookupSrc_append_of_some _ _ _ _ h'
     · rcases hk with hk | hk
       · rw [hk] at hmq; cases hmq
@@ -623,6 +761,7 @@ theorem resolveEntry_inv (ipc : Bool) (pre : List Flt) (m0 : Int) (done : List N
       · exact Or.inr (Or.inl ⟨_, rfl, rfl, hipc⟩)
       · exact Or.inl ⟨st.maxPort + stride, by rw [hst]; exact List.mem_cons_self .., hipc, rfl⟩
       · intro x hx; rw [hst]; exact List.mem_cons_of_mem _ hx
+      · intro x hx; rw [hst]; exact hx
       · intro x hx
         rw [hst] at hx ⊢
         simp only at hx ⊢
@@ -645,6 +784,9 @@ theorem resolveEntry_inv (ipc : Bool) (pre : List Flt) (m0 : Int) (done : List N
         rcases List.mem_cons.mp hx with rfl | hx
         · exact Or.inr rfl
         · exact Or.inl hx
+      · rw [hst]; exact hinv.ipcOwners
+      · intro x hx; rw [hst] at hx; exact Or.inl hx
+      · intro x hx; rw [hst] at hx; exact hinv.ipcShape x hx
     refine ⟨hinv', ?_, fun hk => ?_, fun _ _ => ⟨tcpConn (st.maxPort + stride), ?_, he⟩⟩
     · intro id' a' h'; rw [hst]; exact lookupSrc_append_of_some _ _ _ _ h'
     · rcases hk with hk | hk
@@ -725,7 +867,8 @@ theorem setSources_inv (ipc : Bool) (pre : List Flt) (m0 : Int) (done : List Nat
       | some f1 => rw [hh] at h; simp only [Option.map_some, Option.some.injEq] at h; exact ⟨f1, rfl, Or.inr ⟨rfl, h.symm⟩⟩
     · rw [setSources_get_ne _ _ _ _ hj] at h
       exact ⟨f', h, Or.inl ⟨hj, rfl⟩⟩
-  refine ⟨?_, ?_, ?_, ?_, hinv.bound, hinv.apart, hinv.floor, hinv.owners, hinv.ownersIn, ?_, ?_, ?_⟩
+  refine ⟨?_, ?_, ?_, ?_, hinv.bound, hinv.apart, hinv.floor, hinv.owners, hinv.ownersIn, ?_, ?_, ?_,
+    hinv.ipcOwners, hinv.ipcOwnersIn, hinv.ipcShape⟩
   · simp only [setSources_ids]; exact hinv.ids
   · intro j f f' hpre h
     obtain ⟨f1, h1, h2⟩ := hget j f' h
@@ -842,6 +985,138 @@ theorem resolveFrom_inv (ipc : Bool) (pre : List Flt) (m0 : Int) (nonMq : List V
         · exact hdis j (List.mem_cons_of_mem _ hj) hmem) i1 h
       simpa [List.reverse_cons, List.append_assoc] using this
 
+/-! ## what the repaired `--ipc` allocator maintains about `ipc_addrs` -/
+
+/-- `u0` = `ipc_addrs` after the scan (the endpoints the user named).  The set only grows, by exactly the allocated
+names; an allocated name was in the set neither before its allocation nor at the start; an allocated name that is
+not plain `ipc://<id>` was forced: `ipc://<id>` was named by the user or allocated earlier. -/
+structure IpcInv (u0 : List Str) (st : RS) : Prop where
+  used : ∃ used, st.ipcUsed = some used ∧ (∀ u, u ∈ used ↔ u ∈ u0 ∨ ∃ x ∈ st.ipcAllocs, x.2 = u)
+  fresh : ∀ x ∈ st.ipcAllocs, x.2 ∉ u0
+  distinct : st.ipcAllocs.Pairwise (fun a b => a.2 ≠ b.2)
+  forced : ∀ x ∈ st.ipcAllocs, x.2 = sIpc ++ x.1 ∨ sIpc ++ x.1 ∈ u0 ∨ ∃ y ∈ st.ipcAllocs, y.2 = sIpc ++ x.1
+
+theorem IpcInv.congr (u0 : List Str) (st st' : RS) (h : IpcInv u0 st) (h1 : st'.ipcUsed = st.ipcUsed)
+    (h2 : st'.ipcAllocs = st.ipcAllocs) : IpcInv u0 st' := by
+  obtain ⟨a, b, c, d⟩ := h
+  exact ⟨by rw [h1, h2]; exact a, by rw [h2]; exact b, by rw [h2]; exact c, by rw [h2]; exact d⟩
+
+theorem resolveEntry_ipcInv (ipc : Bool) (nonMq : List Val) (self : Val) (u0 : List Str) (st st' : RS) (src e : Str)
+    (hinv : IpcInv u0 st) (h : resolveEntry ipc nonMq self st src = .ok (st', e)) : IpcInv u0 st' := by
+  rcases resolveEntry_cases _ _ _ _ _ _ _ h with ⟨_, hst, _⟩ | ⟨_, _, _, _, _, _, _, hst, _⟩ |
+      ⟨_, _, _, _, _, _, _, _, hst, _⟩ | ⟨_, _, _, _, _, _, _, _, hst, _⟩
+  · rw [hst]; exact hinv
+  · rw [hst]; exact hinv
+  · obtain ⟨used, hu, hmem⟩ := hinv.used
+    have hname : ipcName st.ipcUsed (onlyMq src) = pickIpc used (onlyMq src) := by rw [hu]; rfl
+    have hnot : pickIpc used (onlyMq src) ∉ used := pickIpc_not_mem used (onlyMq src)
+    rw [hst, hname]
+    refine ⟨⟨pickIpc used (onlyMq src) :: used, by simp [hu], fun u => ?_⟩, ?_, ?_, ?_⟩
+    · simp only [List.mem_cons, hmem u, exists_eq_or_imp]
+      constructor
+      · rintro (h1 | h1 | h1)
+        · exact Or.inr (Or.inl h1.symm)
+        · exact Or.inl h1
+        · exact Or.inr (Or.inr h1)
+      · rintro (h1 | h1 | h1)
+        · exact Or.inr (Or.inl h1)
+        · exact Or.inl h1.symm
+        · exact Or.inr (Or.inr h1)
+    · intro x hx
+      rcases List.mem_cons.mp hx with rfl | hx
+      · exact fun hin => hnot ((hmem _).mpr (Or.inl hin))
+      · exact hinv.fresh x hx
+    · simp only [List.pairwise_cons]
+      refine ⟨fun b hb heq => hnot ((hmem _).mpr (Or.inr ⟨b, hb, heq.symm⟩)), hinv.distinct⟩
+    · intro x hx
+      rcases List.mem_cons.mp hx with rfl | hx
+      · by_cases hfree : sIpc ++ onlyMq src ∈ used
+        · rcases (hmem _).mp hfree with h1 | ⟨y, hy, h1⟩
+          · exact Or.inr (Or.inl h1)
+          · exact Or.inr (Or.inr ⟨y, List.mem_cons_of_mem _ hy, h1⟩)
+        · exact Or.inl (pickIpc_free used (onlyMq src) hfree)
+      · rcases hinv.forced x hx with h1 | h1 | ⟨y, hy, h1⟩
+        · exact Or.inl h1
+        · exact Or.inr (Or.inl h1)
+        · exact Or.inr (Or.inr ⟨y, List.mem_cons_of_mem _ hy, h1⟩)
+  · exact hinv.congr u0 st st' (by rw [hst]) (by rw [hst])
+
+theorem resolveEntries_ipcInv (ipc : Bool) (nonMq : List Val) (self : Val) (u0 : List Str) :
+    ∀ (srcs : List Str) (st st' : RS) (es : List Str), IpcInv u0 st →
+      resolveEntries ipc nonMq self st srcs = .ok (st', es) → IpcInv u0 st' := by
+  intro srcs
+  induction srcs with
+  | nil =>
+    intro st st' es hinv h
+    simp only [resolveEntries, pure, Except.pure, Except.ok.injEq, Prod.mk.injEq] at h
+    rw [← h.1]; exact hinv
+  | cons s r ih =>
+    intro st st' es hinv h
+    unfold resolveEntries at h
+    cases h1 : resolveEntry ipc nonMq self st s with
+    | error x => rw [h1] at h; cases h
+    | ok p1 =>
+      obtain ⟨st1, e⟩ := p1
+      rw [h1] at h
+      simp only [Except.bind] at h
+      cases h2 : resolveEntries ipc nonMq self st1 r with
+      | error x => rw [h2] at h; cases h
+      | ok p2 =>
+        obtain ⟨st2, es2⟩ := p2
+        rw [h2] at h
+        simp only [pure, Except.pure, Except.ok.injEq, Prod.mk.injEq] at h
+        rw [← h.1]
+        exact ih st1 st2 es2 (resolveEntry_ipcInv ipc nonMq self u0 st st1 s e hinv h1) h2
+
+theorem resolveFilter_ipcInv (ipc : Bool) (nonMq : List Val) (u0 : List Str) (st st' : RS) (i : Nat)
+    (hinv : IpcInv u0 st) (h : resolveFilter ipc nonMq st i = .ok st') : IpcInv u0 st' := by
+  unfold resolveFilter at h
+  split at h
+  · simp only [pure, Except.pure, Except.ok.injEq] at h
+    rw [← h]; exact hinv
+  · rename_i fc _
+    split at h
+    · split at h
+      · simp only [pure, Except.pure, Except.ok.injEq] at h
+        rw [← h]; exact hinv
+      · rename_i e es _
+        cases h1 : resolveEntries ipc nonMq (attr fc.cfg kId) st (e :: es) with
+        | error x => rw [h1] at h; cases h
+        | ok p1 =>
+          obtain ⟨st1, es'⟩ := p1
+          rw [h1] at h
+          simp only [Except.bind, pure, Except.pure, Except.ok.injEq] at h
+          rw [← h]
+          exact (resolveEntries_ipcInv ipc nonMq _ u0 (e :: es) st st1 es' hinv h1).congr u0 _ _ rfl rfl
+    · split at h
+      · cases h
+      · simp only [pure, Except.pure, Except.ok.injEq] at h
+        rw [← h]; exact hinv
+
+theorem resolveFrom_ipcInv (ipc : Bool) (nonMq : List Val) (u0 : List Str) :
+    ∀ (l : List Nat) (st st' : RS), IpcInv u0 st → resolveFrom ipc nonMq l st = .ok st' → IpcInv u0 st' := by
+  intro l
+  induction l with
+  | nil =>
+    intro st st' hinv h
+    simp only [resolveFrom, pure, Except.pure, Except.ok.injEq] at h
+    rw [← h]; exact hinv
+  | cons i r ih =>
+    intro st st' hinv h
+    unfold resolveFrom at h
+    cases h1 : resolveFilter ipc nonMq st i with
+    | error x => rw [h1] at h; cases h
+    | ok st1 =>
+      rw [h1] at h
+      simp only [Except.bind] at h
+      exact ih st1 st' (resolveFilter_ipcInv ipc nonMq u0 st st1 i hinv h1) h
+
+theorem resolveAll_ipcInv (ipc : Bool) (pre : List Flt) (sr : ScanRes) (st : RS)
+    (h : resolveAll true ipc pre sr = .ok st) : IpcInv sr.ipcUsed st := by
+  unfold resolveAll at h
+  refine resolveFrom_ipcInv ipc sr.nonMq sr.ipcUsed _ _ st ?_ h
+  exact ⟨⟨sr.ipcUsed, rfl, fun u => by simp⟩, (fun x hx => by cases hx), List.Pairwise.nil, (fun x hx => by cases hx)⟩
+
 /-! ## the port scan -/
 
 theorem le_maxList (m : Int) (l : List Int) : m ≤ maxList m l := by
@@ -938,6 +1213,62 @@ theorem scanPorts_spec (patched : Bool) :
               exact Or.inr ⟨f, List.mem_cons_self .., rfl, hu⟩
         · exact Or.inr ⟨g, List.mem_cons_of_mem _ hg, h2⟩
 
+/-- what the scan collects into `ipc_addrs`: exactly the `ipc://` endpoints named by this filter -/
+theorem scanStep_ipcUsed (patched : Bool) (sr sr' : ScanRes) (f : Flt) (h : scanStep patched sr f = .ok sr') :
+    sr'.ipcUsed = if patched then sr.ipcUsed ++ userIpc f else sr.ipcUsed := by
+  unfold scanStep at h
+  simp only at h
+  split at h
+  · split at h
+    · simp only [pure, Except.pure, Except.ok.injEq] at h
+      subst h; rfl
+    · split at h
+      · simp only [pure, Except.pure, Except.ok.injEq] at h
+        subst h; rfl
+      · rename_i first more _ _
+        cases ht : tcpPorts (first :: more).reverse with
+        | error x => rw [ht] at h; cases h
+        | ok ps =>
+          rw [ht] at h
+          simp only [Except.bind, pure, Except.pure, Except.ok.injEq] at h
+          subst h; rfl
+  · split at h
+    · cases h
+    · simp only [pure, Except.pure, Except.ok.injEq] at h
+      subst h; rfl
+
+theorem scanPorts_ipcUsed :
+    ∀ (l : List Flt) (sr sr' : ScanRes), scanPorts true l sr = .ok sr' →
+      ∀ u, u ∈ sr'.ipcUsed ↔ u ∈ sr.ipcUsed ∨ ∃ f ∈ l, u ∈ userIpc f := by
+  intro l
+  induction l with
+  | nil =>
+    intro sr sr' h u
+    simp only [scanPorts, pure, Except.pure, Except.ok.injEq] at h
+    subst h
+    simp
+  | cons f r ih =>
+    intro sr sr' h u
+    unfold scanPorts at h
+    cases h1 : scanStep true sr f with
+    | error x => rw [h1] at h; cases h
+    | ok sr1 =>
+      rw [h1] at h
+      simp only [Except.bind] at h
+      have a1 := scanStep_ipcUsed true sr sr1 f h1
+      simp only [↓reduceIte] at a1
+      rw [ih sr1 sr' h u, a1, List.mem_append]
+      simp only [List.mem_cons, exists_eq_or_imp]
+      constructor
+      · rintro ((h2 | h2) | h2)
+        · exact Or.inl h2
+        · exact Or.inr (Or.inl h2)
+        · exact Or.inr (Or.inr h2)
+      · rintro (h2 | h2 | h2)
+        · exact Or.inl (Or.inl h2)
+        · exact Or.inl (Or.inr h2)
+        · exact Or.inr h2
+
 /-! ## the final re-ordering keeps every key's value -/
 
 theorem cget_append (l1 l2 : Config) (k : Str) :
@@ -1012,7 +1343,7 @@ theorem C12_stride_covers : portsPerOutput ≤ OF.Facts.CLI_PORT_STRIDE := by de
 theorem wire_stages (patched : Bool) (jv : Str → Val) (cls : Str → ClsInfo) (toks : List Str) (ipc : Bool) (st : RS)
     (h : wire patched jv cls toks ipc = .ok st) :
     ∃ fs0 pre sr, scan jv cls toks [] none = .ok fs0 ∧ prep fs0 = .ok pre ∧
-      scanPorts patched pre initScan = .ok sr ∧ resolveAll ipc pre sr = .ok st := by
+      scanPorts patched pre initScan = .ok sr ∧ resolveAll patched ipc pre sr = .ok st := by
   unfold wire at h
   split at h
   · cases h
@@ -1033,12 +1364,13 @@ theorem wire_stages (patched : Bool) (jv : Str → Val) (cls : Str → ClsInfo) 
 /-- everything the loop invariant says about the result of `resolveAll` -/
 theorem resolveAll_inv (patched ipc : Bool) (pre : List Flt) (sr : ScanRes) (st : RS)
     (hp : (ids pre).Pairwise DistinctId) (hscan : scanPorts patched pre initScan = .ok sr)
-    (h : resolveAll ipc pre sr = .ok st) :
+    (h : resolveAll patched ipc pre sr = .ok st) :
     Inv ipc pre sr.maxPort ((List.range pre.length).reverse ++ []) st := by
   unfold resolveAll at h
   refine resolveFrom_inv ipc pre sr.maxPort sr.nonMq stride_nonneg hp _ [] _ st List.nodup_range
     (fun _ _ hm => by cases hm) ?_ h
-  refine ⟨rfl, ?_, ?_, ?_, ?_, List.Pairwise.nil, Int.le_refl _, List.Pairwise.nil, ?_, ?_, ?_, ?_⟩
+  refine ⟨rfl, ?_, ?_, ?_, ?_, List.Pairwise.nil, Int.le_refl _, List.Pairwise.nil, ?_, ?_, ?_, ?_,
+    List.Pairwise.nil, (fun x hx => by cases hx), (fun x hx => by cases hx)⟩
   · intro i f f' h1 h2; rw [h1] at h2; cases h2; exact ⟨rfl, rfl, rfl, fun _ _ _ => rfl⟩
   · intro i f f' h1 h2; rw [h1] at h2; cases h2; exact Or.inl rfl
   · intro i f f' h1 h2 _; rw [h1] at h2; cases h2; rfl
@@ -1106,7 +1438,8 @@ theorem DistinctId_str (a b : Str) (h : DistinctId (.str a) (.str b)) : a ≠ b 
 `u … u + portsPerOutput - 1` where `u` is named by ANY entry of ANY filter's `sources` or `outputs`
 (`seenPorts`: `addr_port` of the entry — any scheme, `tcp://host` counts as 5550), and of the allocator's start.
 Every allocation has a distinct owner id, and a filter's `outputs` is either what it was before the loop or the
-allocated `tcp://*:p` of its own id (or `ipc://id` with `--ipc`).  Uses `portsPerOutput ≤ CLI_PORT_STRIDE`
+allocated `tcp://*:p` of its own id (or, with `--ipc`, the ipc name allocated to its own id, see `C12_ipc_fresh`).
+Uses `portsPerOutput ≤ CLI_PORT_STRIDE`
 (`C12_stride_covers`, decided on the generated facts). -/
 theorem C12_ports_disjoint (jv : Str → Val) (cls : Str → ClsInfo) (toks : List Str) (ipc : Bool) (st : RS)
     (h : wire true jv cls toks ipc = .ok st) :
@@ -1119,7 +1452,7 @@ theorem C12_ports_disjoint (jv : Str → Val) (cls : Str → ClsInfo) (toks : Li
         cget f'.cfg kOutputs = cget f.cfg kOutputs ∨
         ∃ id, attr f.cfg kId = .str id ∧
           ((∃ p, (id, p) ∈ st.allocs ∧ ipc = false ∧ cget f'.cfg kOutputs = some (.str (tcpOut p))) ∨
-           (ipc = true ∧ cget f'.cfg kOutputs = some (.str (sIpc ++ id))))) := by
+           (∃ nm, (id, nm) ∈ st.ipcAllocs ∧ ipc = true ∧ cget f'.cfg kOutputs = some (.str nm)))) := by
   obtain ⟨fs0, pre, sr, h1, h2, h3, _, _, hinv⟩ := wire_inv _ _ _ _ _ _ h
   obtain ⟨s1, s2, _⟩ := scanPorts_spec true pre initScan sr h3
   have hc := C12_stride_covers
@@ -1158,8 +1491,8 @@ theorem unique_by_id (fs : List Flt) (hp : (ids fs).Pairwise DistinctId) (id : S
 address and names a filter of the list has become `a ++ suffix` where `a` is the address recorded for that id
 (`SrcOK`/`EntryOK`, entries that are addresses or name no filter are unchanged); and every recorded address `a` of
 an id is bound (`Binds`: first entry of its explicit all-MQ `outputs` with wildcard hosts → `localhost`, or the
-allocated `tcp://*:p` ↔ `tcp://localhost:p`, or `ipc://id`) by the filter carrying that id, which is the only
-filter with that id. -/
+allocated `tcp://*:p` ↔ `tcp://localhost:p`, or one of the ipc names `ipc://id`, `ipc://id-2`, `ipc://id-3`, … of
+that id) by the filter carrying that id, which is the only filter with that id. -/
 theorem C12_resolved (patched : Bool) (jv : Str → Val) (cls : Str → ClsInfo) (toks : List Str) (ipc : Bool) (st : RS)
     (h : wire patched jv cls toks ipc = .ok st) :
     ∃ fs0 pre, scan jv cls toks [] none = .ok fs0 ∧ prep fs0 = .ok pre ∧ st.fs.length = pre.length ∧
@@ -1191,29 +1524,124 @@ theorem pairwise_mem {α : Type} {R : α → α → Prop} : ∀ {l : List α}, l
       · exact Or.inr (Or.inr (hb1 ▸ hx a ha1))
       · exact ih a ha1 b hb1
 
-/-- **C12_bound_once_partial** ("exactly one filter binds the address", the part that holds): an id owns at most
-one allocated port and the ports allocated to different ids are at least `CLI_PORT_STRIDE ≥ portsPerOutput` apart,
-so no two filters are *given* overlapping tcp outputs, and by `C12_ports_disjoint` none overlaps a port the user
-named.  NOT proved because false on the current tree: (i) with `--ipc` the allocated name `ipc://<id>` can equal a
-user-given ipc output of another filter (witness below, finding `C12-ipc-name-clash`); (ii) the user can give the
-same explicit address to two filters, which is passed through verbatim. -/
+/-- the repaired behaviour (`wire true`): the stages, the loop invariant and the `ipc_addrs` invariant, with
+`ipc_addrs` after the scan characterised as the `ipc://` endpoints named in any `sources`/`outputs` entry -/
+theorem wire_ipc_inv (jv : Str → Val) (cls : Str → ClsInfo) (toks : List Str) (ipc : Bool) (st : RS)
+    (h : wire true jv cls toks ipc = .ok st) :
+    ∃ (fs0 pre : List Flt) (sr : ScanRes), scan jv cls toks [] none = .ok fs0 ∧ prep fs0 = .ok pre ∧
+      Inv ipc pre sr.maxPort ((List.range pre.length).reverse ++ []) st ∧ IpcInv sr.ipcUsed st ∧
+      ∀ u, u ∈ sr.ipcUsed ↔ ∃ f ∈ pre, u ∈ userIpc f := by
+  obtain ⟨fs0, pre, sr, h1, h2, h3, h4⟩ := wire_stages true jv cls toks ipc st h
+  obtain ⟨p1, _⟩ := prep_ids fs0 pre h2
+  refine ⟨fs0, pre, sr, h1, h2, resolveAll_inv true ipc pre sr st p1 h3 h4, resolveAll_ipcInv ipc pre sr st h4, fun u => ?_⟩
+  rw [scanPorts_ipcUsed pre initScan sr h3 u]
+  simp [initScan]
+
+/-- **C12_ipc_fresh** (behaviour with `pending_fixes/C12-ipc-name-clash.diff`; every command line, `--ipc` or not):
+every ipc name the CLI allocates (`st.ipcAllocs`: `(id, name)`, newest first) differs from every `ipc://` endpoint the
+user named — `userIpc f`: every entry of any filter's `sources` or `outputs` that starts with `ipc://`, topic/option
+suffix stripped by `only_mq_addr` — and from every name allocated earlier; every allocation has a distinct owner id;
+the name is one of `ipc://id`, `ipc://id-2`, `ipc://id-3`, … of its owner's id, and it is plain `ipc://id` (the pinned
+behaviour) unless that very name was named by the user or already allocated; and a filter's `outputs` after the loop
+is what it was before, or the address allocated to its own id. -/
+theorem C12_ipc_fresh (jv : Str → Val) (cls : Str → ClsInfo) (toks : List Str) (ipc : Bool) (st : RS)
+    (h : wire true jv cls toks ipc = .ok st) :
+    ∃ fs0 pre, scan jv cls toks [] none = .ok fs0 ∧ prep fs0 = .ok pre ∧
+      (∀ x ∈ st.ipcAllocs, ∀ f ∈ pre, x.2 ∉ userIpc f) ∧
+      st.ipcAllocs.Pairwise (fun a b => a.2 ≠ b.2) ∧
+      st.ipcAllocs.Pairwise (fun a b => a.1 ≠ b.1) ∧
+      (∀ x ∈ st.ipcAllocs, ∃ k, x.2 = ipcCand x.1 k) ∧
+      (∀ x ∈ st.ipcAllocs, x.2 = sIpc ++ x.1 ∨ (∃ f ∈ pre, sIpc ++ x.1 ∈ userIpc f) ∨ ∃ y ∈ st.ipcAllocs, y.2 = sIpc ++ x.1) ∧
+      (∀ (i : Nat) (f f' : Flt), pre[i]? = some f → st.fs[i]? = some f' →
+        cget f'.cfg kOutputs = cget f.cfg kOutputs ∨
+        ∃ id, attr f.cfg kId = .str id ∧
+          ((∃ p, (id, p) ∈ st.allocs ∧ ipc = false ∧ cget f'.cfg kOutputs = some (.str (tcpOut p))) ∨
+           (∃ nm, (id, nm) ∈ st.ipcAllocs ∧ ipc = true ∧ cget f'.cfg kOutputs = some (.str nm)))) := by
+  obtain ⟨fs0, pre, sr, h1, h2, hinv, hipc, hu⟩ := wire_ipc_inv _ _ _ _ _ h
+  refine ⟨fs0, pre, h1, h2, ?_, hipc.distinct, hinv.ipcOwners, hinv.ipcShape, ?_, hinv.outs⟩
+  · intro x hx f hf hm
+    exact hipc.fresh x hx ((hu _).mpr ⟨f, hf, hm⟩)
+  · intro x hx
+    rcases hipc.forced x hx with h3 | h3 | h3
+    · exact Or.inl h3
+    · exact Or.inr (Or.inl ((hu _).mp h3))
+    · exact Or.inr (Or.inr h3)
+
+theorem ipcCand_ne_tcpOut (id : Str) (k : Nat) (p : Int) : tcpOut p ≠ ipcCand id k := by
+  cases k <;> simp [ipcCand, tcpOut, sTcp, sIpc]
+
+/-- **C12_bound_once_partial** ("exactly one filter binds the address", as far as it holds).
+For both scans: an id owns at most one allocated tcp port and at most one allocated ipc name, and the ports
+allocated to different ids are at least `CLI_PORT_STRIDE ≥ portsPerOutput` apart, so no two filters are *given*
+overlapping tcp outputs (and by `C12_ports_disjoint` none overlaps a port the user named).
+With `pending_fixes/C12-ipc-name-clash.diff` (`patched = true`) the `--ipc` case is proved as well: names allocated to
+different ids differ, no allocated name is an `ipc://` endpoint the user named anywhere (`C12_ipc_fresh`), hence for
+the filter `fi` that was given the name `nm` every filter carrying another id either kept the `outputs` it had before
+the loop, none of whose `ipc://` endpoints is `nm`, or was itself allocated a different address.
+EXCLUDED, explicitly: (i) the binder is required to be of a class that can feed filters (`fi.canOut = true`): a source
+naming an output-only filter (Webvis, VideoOut, …) still makes the CLI give it `outputs`, which the class rejects at
+start-up — known finding `bound-by-output-only-filter`, witness below; (ii) the user can give the same explicit
+address to two filters himself, which is passed through verbatim (`C12_passthrough`).  The pinned allocator
+(`patched = false`) had the ipc clash: witness below. -/
 theorem C12_bound_once_partial (patched : Bool) (jv : Str → Val) (cls : Str → ClsInfo) (toks : List Str) (ipc : Bool) (st : RS)
     (h : wire patched jv cls toks ipc = .ok st) :
-    ∀ x ∈ st.allocs, ∀ y ∈ st.allocs,
-      (x.1 = y.1 → x = y) ∧ (x.1 ≠ y.1 → x.2 + OF.Facts.CLI_PORT_STRIDE ≤ y.2 ∨ y.2 + OF.Facts.CLI_PORT_STRIDE ≤ x.2) := by
+    (∀ x ∈ st.allocs, ∀ y ∈ st.allocs,
+      (x.1 = y.1 → x = y) ∧ (x.1 ≠ y.1 → x.2 + OF.Facts.CLI_PORT_STRIDE ≤ y.2 ∨ y.2 + OF.Facts.CLI_PORT_STRIDE ≤ x.2)) ∧
+    (∀ x ∈ st.ipcAllocs, ∀ y ∈ st.ipcAllocs, x.1 = y.1 → x = y) ∧
+    (patched = true → ∃ fs0 pre, scan jv cls toks [] none = .ok fs0 ∧ prep fs0 = .ok pre ∧
+      (∀ x ∈ st.ipcAllocs, ∀ y ∈ st.ipcAllocs, x.1 ≠ y.1 → x.2 ≠ y.2) ∧
+      (∀ x ∈ st.ipcAllocs, ∀ f ∈ pre, x.2 ∉ userIpc f) ∧
+      ∀ (i j : Nat) (fi fi' fj fj' : Flt) (id nm : Str),
+        pre[i]? = some fi → st.fs[i]? = some fi' → pre[j]? = some fj → st.fs[j]? = some fj' →
+        fi.canOut = true → attr fi.cfg kId = .str id → (id, nm) ∈ st.ipcAllocs →
+        cget fi'.cfg kOutputs = some (.str nm) → attr fj.cfg kId ≠ .str id →
+        (cget fj'.cfg kOutputs = cget fj.cfg kOutputs ∧ nm ∉ userIpc fj) ∨
+        ∃ a, cget fj'.cfg kOutputs = some (.str a) ∧ a ≠ nm) := by
   obtain ⟨_, _, _, _, _, _, _, _, hinv⟩ := wire_inv _ _ _ _ _ _ h
-  intro x hx y hy
-  constructor
-  · intro he
-    rcases pairwise_mem hinv.owners x hx y hy with h1 | h1 | h1
+  have hone : ∀ x ∈ st.ipcAllocs, ∀ y ∈ st.ipcAllocs, x.1 = y.1 → x = y := by
+    intro x hx y hy he
+    rcases pairwise_mem hinv.ipcOwners x hx y hy with h1 | h1 | h1
     · exact h1
     · exact absurd he h1
     · exact absurd he.symm h1
-  · intro hne
-    rcases pairwise_mem hinv.apart x hx y hy with h1 | h1 | h1
-    · exact absurd (congrArg Prod.fst h1) hne
-    · exact Or.inr h1
-    · exact Or.inl h1
+  refine ⟨?_, hone, ?_⟩
+  · intro x hx y hy
+    constructor
+    · intro he
+      rcases pairwise_mem hinv.owners x hx y hy with h1 | h1 | h1
+      · exact h1
+      · exact absurd he h1
+      · exact absurd he.symm h1
+    · intro hne
+      rcases pairwise_mem hinv.apart x hx y hy with h1 | h1 | h1
+      · exact absurd (congrArg Prod.fst h1) hne
+      · exact Or.inr h1
+      · exact Or.inl h1
+  · intro hpt
+    subst hpt
+    obtain ⟨fs0, pre, h1, h2, hfresh, hdist, _, hshape, _, houts⟩ := C12_ipc_fresh _ _ _ _ _ h
+    have hdiff : ∀ x ∈ st.ipcAllocs, ∀ y ∈ st.ipcAllocs, x.1 ≠ y.1 → x.2 ≠ y.2 := by
+      intro x hx y hy hne
+      rcases pairwise_mem hdist x hx y hy with h3 | h3 | h3
+      · exact absurd (congrArg Prod.fst h3) hne
+      · exact h3
+      · exact fun e => h3 e.symm
+    refine ⟨fs0, pre, h1, h2, hdiff, hfresh, ?_⟩
+    intro i j fi fi' fj fj' id nm hpi _ hpj hsj _ _ hmem _ hne
+    rcases houts j fj fj' hpj hsj with h3 | ⟨id', hid', h3⟩
+    · exact Or.inl ⟨h3, hfresh _ hmem fj (List.mem_of_getElem? hpj)⟩
+    · right
+      rcases h3 with ⟨p, _, _, h4⟩ | ⟨nm', hm', _, h4⟩
+      · obtain ⟨k, hk⟩ := hshape _ hmem
+        have hk' : nm = ipcCand id k := hk
+        exact ⟨_, h4, by rw [hk']; exact ipcCand_ne_tcpOut _ _ _⟩
+      · refine ⟨nm', h4, ?_⟩
+        have := hdiff _ hm' _ hmem (by
+          intro e
+          apply hne
+          rw [hid']
+          exact congrArg Val.str e)
+        exact this
 
 /-! ## passthrough: what survives from the scanned options -/
 
@@ -1470,20 +1898,67 @@ example : (match parseFilters true jv0 cls0 order0 (["Util", "--id", "a", "-", "
     | .error e => some e | .ok _ => none) = some .valueError := by
   decide +kernel
 
-/-- FINDING (second candidate, unchanged by the patch): a source naming an output-only filter makes the CLI give
-that filter a `tcp://` output which its class rejects at start-up -/
+/-- FINDING `bound-by-output-only-filter` (unchanged by the patches; the exclusion `fi.canOut = true` of
+`C12_bound_once_partial`): a source naming an output-only filter (`cls0`: Webvis has `canOut = false`) makes the CLI
+give that filter a `tcp://` output which its class rejects at start-up -/
 example : view (parseFilters true jv0 cls0 order0
     (["VideoIn", "--sources", "file://a", "-", "Webvis", "-", "Util", "--sources", "Webvis"].map T) false) = some
     [(.str (T "VideoIn"), .str (T "file://a"), .str (T "tcp://*:5550")),
      (.str (T "Webvis"), .str (T "tcp://localhost:5550"), .str (T "tcp://*:5552")),
      (.str (T "Util"), .str (T "tcp://localhost:5552"), .null)] := by decide +kernel
 
-/-- FINDING (`--ipc`): the allocated `ipc://<id>` name is not checked against user-given ipc outputs — two filters
-bind `ipc://Util` -/
-example : view (parseFilters true jv0 cls0 order0 (["VideoIn", "--outputs", "ipc://Util", "-", "Util", "-", "Webvis"].map T) true) = some
+/-- `openfilter run --ipc - VideoIn --outputs ipc://Util - Util - Webvis` -/
+def ipcDemo : List Str := ["VideoIn", "--outputs", "ipc://Util", "-", "Util", "-", "Webvis"].map T
+
+/-- FIXED FINDING (`--ipc`, was `auto-ipc-clashes-user-ipc`), both behaviours on the same command line.
+NEGATIVE WITNESS (pinned behaviour, `patched = false`): the allocator hands out `ipc://Util` although VideoIn binds it
+by the user's own `--outputs` — two filters bind `ipc://Util` and Util is wired to itself; the conclusions of
+`C12_ipc_fresh` and of the ipc part of `C12_bound_once_partial` are false for the pinned allocator. -/
+example : view (parseFilters false jv0 cls0 order0 ipcDemo true) = some
     [(.str (T "VideoIn"), .null, .str (T "ipc://Util")),
      (.str (T "Util"), .str (T "ipc://Util"), .str (T "ipc://Util")),
      (.str (T "Webvis"), .str (T "ipc://Util"), .null)] := by decide +kernel
+
+example : (wire false jv0 cls0 ipcDemo true).toOption.map (fun st => (st.ipcAllocs, st.ipcUsed)) =
+    some ([(T "Util", T "ipc://Util")], none) ∧
+    ((scan jv0 cls0 ipcDemo [] none).bind prep).toOption.map (fun pre => pre.map userIpc) =
+      some [[T "ipc://Util"], [], []] := by decide +kernel
+
+/-- … and the repaired behaviour (`patched = true`): `ipc://Util` is in `ipc_addrs`, Util gets `ipc://Util-2`, every
+address has one binder (non-vacuity of `C12_ipc_fresh` and of the ipc part of `C12_bound_once_partial`) -/
+example : view (parseFilters true jv0 cls0 order0 ipcDemo true) = some
+    [(.str (T "VideoIn"), .null, .str (T "ipc://Util")),
+     (.str (T "Util"), .str (T "ipc://Util"), .str (T "ipc://Util-2")),
+     (.str (T "Webvis"), .str (T "ipc://Util-2"), .null)] := by decide +kernel
+
+example : (wire true jv0 cls0 ipcDemo true).toOption.map (fun st => (st.ipcAllocs, st.ipcUsed)) =
+    some ([(T "Util", T "ipc://Util-2")], some [T "ipc://Util-2", T "ipc://Util"]) := by decide +kernel
+
+/-- the search: suffixes are stripped before the comparison, `-2` taken by the user → `-3`; an allocated name is
+taken for later allocations (`Util-2` is a filter id here); without a clash the names are the pinned `ipc://<id>` -/
+example : view (parseFilters true jv0 cls0 order0
+    (["VideoIn", "--outputs", "ipc://Util;t,ipc://Util-2", "-", "Util", "-", "Webvis"].map T) true) = some
+    [(.str (T "VideoIn"), .null, .str (T "ipc://Util;t,ipc://Util-2")),
+     (.str (T "Util"), .str (T "ipc://Util"), .str (T "ipc://Util-3")),
+     (.str (T "Webvis"), .str (T "ipc://Util-3"), .null)] := by decide +kernel
+
+example : view (parseFilters true jv0 cls0 order0
+    (["VideoIn", "--sources", "ipc://Util!x", "-", "Util", "-", "Util", "--id", "Util-2", "-", "Webvis", "--sources", "Util-2,Util"].map T) true) = some
+    [(.str (T "VideoIn"), .str (T "ipc://Util!x"), .str (T "ipc://VideoIn")),
+     (.str (T "Util"), .str (T "ipc://VideoIn"), .str (T "ipc://Util-2")),
+     (.str (T "Util-2"), .str (T "ipc://Util-2"), .str (T "ipc://Util-2-2")),
+     (.str (T "Webvis"), .str (T "ipc://Util-2-2, ipc://Util-2"), .null)] := by decide +kernel
+
+example : view (parseFilters true jv0 cls0 order0 (["VideoIn", "-", "Util", "-", "Webvis"].map T) true) =
+    view (parseFilters false jv0 cls0 order0 (["VideoIn", "-", "Util", "-", "Webvis"].map T) true) ∧
+    view (parseFilters true jv0 cls0 order0 (["VideoIn", "-", "Util", "-", "Webvis"].map T) true) = some
+    [(.str (T "VideoIn"), .null, .str (T "ipc://VideoIn")),
+     (.str (T "Util"), .str (T "ipc://VideoIn"), .str (T "ipc://Util")),
+     (.str (T "Webvis"), .str (T "ipc://Util"), .null)] := by decide +kernel
+
+/-- the loop's candidates and its result on a set where the first three are taken -/
+example : ipcCand (T "Util") 0 = T "ipc://Util" ∧ ipcCand (T "Util") 1 = T "ipc://Util-2" ∧ ipcCand (T "Util") 9 = T "ipc://Util-10" ∧
+    pickIpc [T "ipc://Util-3", T "ipc://Util", T "ipc://q", T "ipc://Util-2"] (T "Util") = T "ipc://Util-4" := by decide +kernel
 
 /-- the option forms of `parse_param_value` -/
 example : parseParam jv0 (T "fps=15") (some (T "-")) = .set (T "fps") (.str (T "15")) ∧
